@@ -163,7 +163,10 @@ func (m *Machine) fmtValue(fr *frame, v value, t types.Type, verb byte, lenient 
 // sprintf interprets a (concrete) format string.
 func (m *Machine) sprintf(fr *frame, format Str, args []value, lenient bool) (Str, []iface) {
 	if !format.Concrete() {
-		panic(unsupported("fmt model: symbolic format string"))
+		if len(args) != 0 {
+			panic(unsupported("fmt model: symbolic format string with operands"))
+		}
+		return m.sprintfSymbolicFormat(format), nil
 	}
 	f := format.s
 	out := Str{}
@@ -279,6 +282,50 @@ func (m *Machine) sprintf(fr *frame, format Str, args []value, lenient bool) (St
 		out = m.strConcat(out, conc("%!(EXTRA)"))
 	}
 	return out, wrapped
+}
+
+// sprintfSymbolicFormat: a format string with symbolic bytes and no operands (data that found its
+// way into the format position). Every byte is decided to be '%' or not (a fork per byte where
+// both are feasible); "%%" is a percent sign, a '%' at the end prints %!(NOVERB), any other verb
+// prints %!v(MISSING) with the verb byte; flags, width, precision, argument indexes and non-ASCII
+// verbs after a symbolic '%' are not modelled (that path is inconclusive).
+func (m *Machine) sprintfSymbolicFormat(format Str) Str {
+	bs := m.strBytes(format)
+	var out []*Term
+	lit := func(s string) {
+		for i := 0; i < len(s); i++ {
+			out = append(out, m.T.Const(8, uint64(s[i])))
+		}
+	}
+	is := func(b *Term, c byte) bool { return m.decide(m.T.Eq(b, m.T.Const(8, uint64(c)))) }
+	for i := 0; i < len(bs); i++ {
+		if !is(bs[i], '%') {
+			out = append(out, bs[i])
+			continue
+		}
+		i++
+		if i >= len(bs) {
+			lit("%!(NOVERB)")
+			break
+		}
+		v := bs[i]
+		if is(v, '%') {
+			lit("%")
+			continue
+		}
+		for _, c := range []byte("+-# 0123456789.*[") {
+			if is(v, c) {
+				panic(unsupported("fmt model: flags, width, precision or argument index in a symbolic format string"))
+			}
+		}
+		if m.decide(m.T.Bin(OpUlt, m.T.Const(8, 0x7f), v)) {
+			panic(unsupported("fmt model: non-ASCII verb in a symbolic format string"))
+		}
+		lit("%!")
+		out = append(out, v)
+		lit("(MISSING)")
+	}
+	return m.mkStr(out)
 }
 
 func (m *Machine) sprint(fr *frame, args []value, ln bool) Str {
